@@ -29,7 +29,25 @@ var (
 	vLoaded    bool
 	vHarnesses = map[string]func(){}
 	vObsLog    []string
+	vCleanups  []func()
 )
+
+// vTempFile returns the name of a fresh private file (removed after the run).
+func vTempFile() string {
+	d, err := os.MkdirTemp("", "verif-native-")
+	if err != nil {
+		panic(vDesync{"tempdir: " + err.Error()})
+	}
+	vCleanups = append(vCleanups, func() { os.RemoveAll(d) })
+	return d + "/db.sqlite"
+}
+
+func vCleanup() {
+	for _, f := range vCleanups {
+		f()
+	}
+	vCleanups = nil
+}
 
 type vAssertFailed struct{ Msg string }
 type vAssumeFailed struct{}
